@@ -44,6 +44,7 @@ class TLCResult:
             self.depth = int(m.group(1))
         self.violated = re.findall(r"Error: Invariant (\S+) is violated", out)
         self.violated += re.findall(r"Error: Action property (\S+) is violated", out)
+        self.violated += re.findall(r"The invariant of (\S+) is equal to FALSE", out)
         if "Temporal properties were violated" in out:
             self.violated.append("<temporal>")
         self.postcondition_failed = "Postcondition" in out and "violated" in out or "POSTCONDITION" in out and "violated" in out
